@@ -1,5 +1,5 @@
 """C20 - on-disk netCDF access is equivalent to in-memory access (against the vendored stand-in)."""
-import copy, itertools, json, math, os, warnings
+import copy, itertools, json, math, os, random, warnings
 from fractions import Fraction
 import numpy as np
 import core, gen
@@ -80,7 +80,7 @@ class C20(Prop):
             "on files whose dimensions have no coordinate variable: default range labels); metadata of the variable and of the "
             "axes and the dtype kind of partial reads (float, int, str values); a Dataset in a file indexed through read_nc / "
             "open_nc(f).read / .sel / .isel / .loc / .iloc / .ix with names = None, list, str, tol=, keepdims=, and "
-            "open_nc(f)[dimname]; records written beyond the end of an unlimited dimension one or several at a time (int / "
+            "open_nc(f)[dimname]; records written beyond the end of an unlimited dimension one or several at a time, also by writes that start on the last existing records and run on beyond the end (int / "
             "float / str labels, float / int values), read after each write, rewritten afterwards; lists of 2-3 files or a "
             "glob pattern read at once (new axis / existing axis; keys given, default, re-indexing; names str / list; "
             "indices=; concatenate_only) against stack_ds / concatenate_ds of the single reads. "
@@ -221,6 +221,15 @@ class C20(Prop):
             k += m
         c = {"op": "unlimited", "array": gen.clean(arr), "udim": u, "chunks": chunks,
              "hows": [rng.choice(["list", "list", "slice"]) for _ in chunks], "interleave": rng.random() < 0.5, "seed": i}
+        r2 = random.Random("straddle%d" % i)
+        if not plain and len(chunks) > 1 and r2.random() < 0.45:
+            # a write that STRADDLES the current end: it starts on the last record(s) already in the file (same labels, same
+            # values) and runs on beyond the end - the new records' labels must be written all the same
+            for j in range(1, len(chunks)):
+                if r2.random() < 0.7:
+                    back = r2.choice([1, 1, 2])
+                    chunks[j] = list(range(max(0, chunks[j][0] - back), chunks[j][0])) + chunks[j]
+            c["chunks"], c["straddle"] = chunks, True
         if not plain and rng.random() < 0.4:
             ps = sorted(rng.sample(range(n), rng.randint(1, min(2, n))))
             c["overwrite"] = {"pos": ps, "mode": rng.choice(["position", "label"])}
@@ -883,6 +892,7 @@ class C20(Prop):
                 f["unlimited.index:" + h] = 1
             f["unlimited.overwrite"] = c["overwrite"]["mode"] if c.get("overwrite") else "none"
             f["unlimited.interleaved_reads"] = bool(c.get("interleave"))
+            f["unlimited.straddling_write"] = bool(c.get("straddle"))
             f["unlimited.mirror"] = self.lean_unlimited(c)
         if c["op"] == "multi":
             f["multi.names"] = "all" if c.get("names") is None else ("str" if isinstance(c["names"], str) else "list")
